@@ -567,3 +567,89 @@ Lemma premises_needed :
   v_tags (compare_modules (plain_items p_flag) (zod_items p_flag)) = [TgShape] /\
   v_tags (compare_modules (plain_items p_dupkey) (zod_items p_dupkey)) = [TgShape].
 Proof. vm_compute. repeat split; reflexivity. Qed.
+
+(* ---------------- the whole verdict is empty: per-item detail and per-key findings ---------------- *)
+Lemma filter_nil {A} (g : A -> bool) l : (forall x, In x l -> g x = false) -> filter g l = [].
+Proof. induction l as [|a r IH]; intros H; [reflexivity|]. cbn [filter]. rewrite (H a (or_introl eq_refl)). apply IH. intros x Hx. apply H. right. exact Hx. Qed.
+
+Lemma key_findings_ok (n : str) (param : bool) (ps : list member) (cs : list (str * tstruct))
+    (Z T : member -> shape) (E : str * tstruct -> shape) :
+  let kf := fun x : member => key_str (m_key x) in
+  let kc := fun c : str * tstruct => key_str (fst c) in
+  NoDup (map kf ps ++ map kc cs) ->
+  (forall x, In x ps -> compare_shapes param (Z x) (T x) = []) ->
+  key_findings n param (ShObj (map (fun x => (kf x, Z x)) ps))
+    (ShObj (map (fun x => (kf x, T x)) ps ++ map (fun c => (kc c, E c)) cs)) = [].
+Proof.
+  intros kf kc Hn Hps. unfold key_findings. apply flat_map_nil. intros f Hf. apply in_app_or in Hf. destruct Hf as [Hf|Hf]; apply in_map_iff in Hf.
+  - destruct Hf as [x [<- Hx]]. cbn [fst snd]. rewrite (field_of_map kf Z ps x (NoDup_app_remove_r _ _ Hn) Hx). rewrite Hps by exact Hx. reflexivity.
+  - destruct Hf as [c [<- Hc]]. cbn [fst snd]. rewrite field_of_none; [reflexivity|].
+    rewrite map_map. cbn [fst]. intros Hin. apply (nodup_app_disj _ _ (kc c) Hn Hin). apply in_map. exact Hc.
+Qed.
+
+Definition key_row (pm zm : list item) (n : str) (k : nat) (b : bool) : list (str * list tag) :=
+  match plain_decl_k pm n k, zod_decl_k zm n k with
+  | Some t, Some z => key_findings n b z t
+  | _, _ => [] end.
+
+Section KeyRows.
+  Variable p : proj.
+  Hypothesis Hok : proj_ok p.
+  Let m := p_map p.
+  Let Hm : map_ok m = true := proj1 Hok.
+  Let Hnd : NoDup (type_decls (plain_items p)) := proj2 (proj2 (proj2 Hok)).
+
+  Lemma keyrow_type d b : In d (p_types p) -> key_row (plain_items p) (zod_items p) (tdef_name d) 0 b = [].
+  Proof.
+    intros Hd. pose proof Hok as [_ [Ht _]]. rewrite Forall_forall in Ht. specialize (Ht d Hd).
+    unfold key_row, plain_decl_k, zod_decl_k.
+    rewrite (look_plain_type p Hnd d Hd), (look_zod_type_const p Hnd d Hd). fold m.
+    destruct d as [s|e]; cbn [plain_type_item type_const].
+    - destruct Ht as [Hf Hk]. rewrite (zobj_shape m zod_field) by reflexivity.
+      pose proof (members_shape m (s_fields s) []) as Em. cbn [map] in Em. rewrite !app_nil_r in Em. rewrite Em.
+      pose proof (key_findings_ok (tdef_name (DStruct s)) b (s_fields s) [] (fun x => zshape (snd (zod_field m x))) (Tm m) (Ec m)) as Hc.
+      cbn zeta in Hc. cbn [map] in Hc. rewrite !app_nil_r in Hc. apply Hc; [exact Hk|].
+      intros x Hx. rewrite Forall_forall in Hf. apply field_compare; [exact Hm|apply Hf; exact Hx].
+    - cbn [tdef_ok] in Ht. destruct (enum_shapes e Ht) as [E1 E2]. rewrite E1, E2. reflexivity.
+  Qed.
+
+  Lemma keyrow_cmd c b : In c (p_cmds p) -> has_params_obj c = true ->
+    key_row (plain_items p) (zod_items p) (params_name c) 0 b = [].
+  Proof.
+    intros Hc O. pose proof Hok as [_ [_ [Hcs _]]]. rewrite Forall_forall in Hcs. destruct (Hcs c Hc) as [Hps [Hch [Hk Hn]]].
+    unfold key_row, plain_decl_k, zod_decl_k.
+    rewrite (look_plain_cmd p Hnd c Hc O). fold m. cbn [the_iface]. rewrite members_shape.
+    assert (forall x, In x (c_params c) -> compare_shapes b (zshape (snd (zod_param m x))) (Tm m x) = []) as Hpc
+      by (intros x Hx; rewrite Forall_forall in Hps; apply param_compare; [exact Hm|apply Hps; exact Hx]).
+    destruct (c_params c) as [|p0 ps] eqn:Ep.
+    - rewrite (look_zod_cmd_noconst p Hnd c Hc O Ep). reflexivity.
+    - assert (c_params c <> []) as Hne by (rewrite Ep; discriminate).
+      rewrite (look_zod_cmd_const p Hnd c Hc Hne). fold m. cbn [the_const]. rewrite Ep.
+      rewrite (zobj_shape m zod_param) by reflexivity.
+      apply (key_findings_ok (params_name c) b (p0 :: ps) (c_chans c) (fun x => zshape (snd (zod_param m x))) (Tm m) (Ec m)); [exact Hk|exact Hpc].
+  Qed.
+End KeyRows.
+
+Theorem modules_verdict_clean p : proj_ok p ->
+  v_tags (compare_modules (plain_items p) (zod_items p)) = [] /\
+  v_detail (compare_modules (plain_items p) (zod_items p)) = [] /\
+  v_keys (compare_modules (plain_items p) (zod_items p)) = [].
+Proof.
+  intros Hok. split; [exact (modules_clean p Hok)|]. pose proof Hok as [_ [_ [_ Hnd]]].
+  assert (forall n, In n (type_decls (plain_items p)) ->
+            (exists d, In d (p_types p) /\ n = tdef_name d) \/ (exists c, In c (p_cmds p) /\ has_params_obj c = true /\ n = params_name c)) as Hcases.
+  { intros n Hn. rewrite plain_type_names in Hn. apply in_app_or in Hn. destruct Hn as [Hn|Hn].
+    - apply in_map_iff in Hn. destruct Hn as [d [<- Hd]]. left. exists d. split; [exact Hd|reflexivity].
+    - unfold params_names in Hn. apply in_flat_map in Hn. destruct Hn as [c [Hc Hin]]. destruct (has_params_obj c) eqn:O; [|destruct Hin].
+      destruct Hin as [<-|[]]. right. exists c. repeat split; assumption. }
+  unfold compare_modules. cbn [v_detail v_keys]. cbv zeta. rewrite (occurrences_nodup _ Hnd) by (intros ? ? []). split.
+  - apply filter_nil. intros row Hrow. apply in_map_iff in Hrow. destruct Hrow as [[n k] [<- Hnk]].
+    apply in_map_iff in Hnk. destruct Hnk as [n' [E Hn]]. inversion E; subst n' k. clear E. cbn [fst snd].
+    destruct (Hcases n Hn) as [[d [Hd ->]]|[c [Hc [O ->]]]].
+    + pose proof (row_type p Hok d (mem (tdef_name d) (param_reachable (zod_items p))) Hd) as H. unfold item_row in H. rewrite H. reflexivity.
+    + pose proof (row_cmd p Hok c (mem (params_name c) (param_reachable (zod_items p))) Hc O) as H. unfold item_row in H. rewrite H. reflexivity.
+  - apply flat_map_nil. intros [n k] Hnk. apply in_map_iff in Hnk. destruct Hnk as [n' [E Hn]]. inversion E; subst n' k. clear E. cbn [fst snd].
+    destruct (Hcases n Hn) as [[d [Hd ->]]|[c [Hc [O ->]]]].
+    + exact (keyrow_type p Hok d _ Hd).
+    + exact (keyrow_cmd p Hok c _ Hc O).
+Qed.
